@@ -23,7 +23,9 @@ from . import cborx, core, envgen, project, signrun, toolrun
 from .c06_encrypt import project_info
 
 WORKER = str(Path(__file__).resolve().parent / "detworker.py")
-FW_OPS = {"create1": "create1", "create1json": "create1", "reuse1": "create1", "create2": "create2", "cache": "cache", "encrypt": "encrypt"}
+FW_OPS = {"create1": "create1", "create1json": "create1", "reuse1": "create1", "create2": "create2", "cache": "cache", "encrypt": "encrypt",
+          "create3": "create3", "create3perm": "create3perm"}
+CWD_OPS = {"create3rel"}
 
 
 def prepare(ctx, d: Path):
@@ -70,6 +72,35 @@ def prepare(ctx, d: Path):
         "suit-parameter-image-digest": {"suit-digest-algorithm-id": "cose-alg-sha-256", "suit-digest-bytes": {"envelope": str(d / "child.suit")}}}}]
     e2["suit-integrated-dependencies"] = {"#dep": str(d / "child.suit"), "#inline": child_desc}
     (d / "d2.yaml").write_text(yaml.dump(d2, sort_keys=False))
+    # a parent whose dependency is an INLINE description that itself reads fw (digest, size and integrated payload from the file);
+    # the same with the dependency's manifest entries in another order; the same with RELATIVE file names (each directory holds
+    # its own fw_rel.bin)
+    def dep3(path):
+        m = json.loads(json.dumps(d1))
+        m["SUIT_Envelope_Tagged"]["suit-manifest"]["suit-manifest-sequence-number"] = 3
+        s_ = json.dumps(m).replace(json.dumps(fw), json.dumps(path))
+        return json.loads(s_)
+
+    def parent3(dep, own=fw):
+        p3 = json.loads(json.dumps(d1).replace(json.dumps(fw), json.dumps(own)))
+        e3 = p3["SUIT_Envelope_Tagged"]
+        e3["suit-manifest"]["suit-manifest-sequence-number"] = 9
+        e3["suit-manifest"]["suit-common"]["suit-components"].append(["D", "#dep3"])
+        e3["suit-manifest"]["suit-common"]["suit-dependencies"] = {"1": {}}
+        e3["suit-manifest"]["suit-validate"] += [{"suit-directive-set-component-index": 1}, {"suit-directive-override-parameters": {
+            "suit-parameter-image-digest": {"suit-digest-algorithm-id": "cose-alg-sha-256", "suit-digest-bytes": {"envelope": dep}},
+            "suit-parameter-image-size": {"envelope": dep}}}]
+        e3["suit-integrated-dependencies"] = {"#dep3": dep}
+        return p3
+
+    (d / "d3.json").write_text(json.dumps(parent3(dep3(fw))))
+    perm = dep3(fw)
+    mf = perm["SUIT_Envelope_Tagged"]["suit-manifest"]
+    perm["SUIT_Envelope_Tagged"]["suit-manifest"] = {k: mf[k] for k in reversed(list(mf))}
+    (d / "d3p.json").write_text(json.dumps(parent3(perm)))
+    (d / "d3rel.json").write_text(json.dumps(parent3(dep3("fw_rel.bin"), str(d / "fw_v1.bin"))))   # the parent itself reads a file that never changes
+    (d / "cwd1" / "fw_rel.bin").write_bytes(envgen.blob(280, 11))
+    (d / "cwd2" / "fw_rel.bin").write_bytes(envgen.blob(281, 12))
     # an envelope with several integrated payloads at two levels (cache generation from an envelope)
     from .c11_extract import make_env
     inner = make_env(ctx, d, ctx.rng, 901, [(f"#q{i}", envgen.blob(10 + i, 70 + i)) for i in range(4)], [])
@@ -109,13 +140,17 @@ def normalise(op, outs, keys, terms):
     return b"\x00|".join(raw)
 
 
-def key_of(op, fwver):
+def key_of(op, fwver, cwd=1):
+    """Determinism!Key rendered as text: canonical operation, versions of the files it reads, directory where it matters."""
+    if op in CWD_OPS:
+        return f"{op}@cwd{cwd}"
     return f"{FW_OPS[op]}@fw{fwver}" if op in FW_OPS else op
 
 
 def run(ctx: core.Check):
     ctx.cov["rule"] = ("schedule = sequence of operations {create (YAML), create (JSON), create via the library on a re-loaded "
-                       "description, hierarchical create, parse, storage, update, MPI, cache, sign, encrypt} and environment steps "
+                       "description, hierarchical create (dependency from a file / inline / inline reading a file that changes / inline with its "
+                       "entries permuted / inline with relative file names), parse, storage, update, MPI, cache, sign, encrypt} and environment steps "
                        "{new file content at the same path, chdir}; all schedules of length 4 enumerated by TLC, executed back to "
                        "back in one interpreter per PYTHONHASHSEED in {0, 1, 12345, random}; references from fresh interpreters. "
                        "Distinct & non-trivial = distinct (schedule, position) pairs executed after at least one other operation.")
@@ -124,7 +159,9 @@ def run(ctx: core.Check):
     ctx.rng.shuffle(scheds)
     extra = [["sign", "create1", "sign", "encrypt"], ["encrypt", "touch_fw", "encrypt", "sign"], ["mpi", "update", "mpi", "boot"],
              ["update", "chdir", "update", "mpi"], ["create1", "touch_fw", "create1json", "reuse1"], ["cache", "touch_fw", "cache", "create2"],
-             ["cachenv", "create1", "cachenv2", "cachenv"], ["parse", "cachenv2", "chdir", "cachenv"]]
+             ["cachenv", "create1", "cachenv2", "cachenv"], ["parse", "cachenv2", "chdir", "cachenv"], ["create3", "touch_fw", "create3", "create3perm"],
+             ["create3perm", "create3", "touch_fw", "create3perm"], ["create3rel", "chdir", "create3rel", "create3"],
+             ["create3", "create3rel", "chdir", "create3rel"]]
     per_seed = 40 if ctx.quick else 700
     d = ctx.tmp("c18")
     keys = prepare(ctx, d)
@@ -133,8 +170,9 @@ def run(ctx: core.Check):
     tr.begin({"kind": "determinism"})
     # ---- references: each key in a fresh interpreter, per seed
     ref_jobs = []
-    for op in ("create1", "create1json", "reuse1", "create2", "cache", "encrypt"):
+    for op in ("create1", "create1json", "reuse1", "create2", "cache", "encrypt", "create3", "create3perm"):
         ref_jobs += [(op, 1, [[op]]), (op, 2, [["touch_fw", op]])]
+    ref_jobs += [("create3rel", 1, [["create3rel"]]), ("create3rel", 1, [["chdir", "create3rel"]])]
     for op in ("parse", "boot", "update", "mpi", "sign", "cachenv", "cachenv2"):
         ref_jobs.append((op, 1, [[op]]))
     ctx.note(f"Use C: {len(ref_jobs) * len(seeds)} fresh-interpreter references")
@@ -148,7 +186,7 @@ def run(ctx: core.Check):
 
     def work_in_copy(wd, sched, seed):
         # the descriptions name absolute paths under d: run in d-relative layout by rewriting the copies
-        for f in ("d1.yaml", "d1.json", "d2.yaml"):
+        for f in ("d1.yaml", "d1.json", "d2.yaml", "d3.json", "d3p.json", "d3rel.json"):
             (wd / f).write_text((wd / f).read_text().replace(str(d) + "/", str(wd) + "/"))
         return work(wd, sched, seed, "ref")
 
@@ -159,7 +197,7 @@ def run(ctx: core.Check):
         last = rows[-1]
         if last["err"]:
             raise core.MachineryError(f"reference run of {op} failed: {last['err']}")
-        tr.ev("Ref", key=tr.terms.it.id(key_of(op, fwver)), out=tr.terms.it.id(normalise(op, last["outs"], keys, tr.terms)),
+        tr.ev("Ref", key=tr.terms.it.id(key_of(op, fwver, last.get("cwd", 1))), out=tr.terms.it.id(normalise(op, last["outs"], keys, tr.terms)),
               op=op, seed=seed)
     ctx.sample({"reference": {"op": results[0][0], "seed": results[0][2]}, "event": tr.events[1]})
     # ---- schedules in long-running interpreters, one per seed (each in its own copy of the work directory)
@@ -180,9 +218,9 @@ def run(ctx: core.Check):
             if r["op"] in ("touch_fw", "chdir"):
                 continue
             if r["err"]:
-                tr.ev("Exec", key=tr.terms.it.id(key_of(r["op"], r["fwver"])), out=-1, op=r["op"], seed=seed, sched=mine[r["s"]], pos=r["i"], err=r["err"])
+                tr.ev("Exec", key=tr.terms.it.id(key_of(r["op"], r["fwver"], r.get("cwd", 1))), out=-1, op=r["op"], seed=seed, sched=mine[r["s"]], pos=r["i"], err=r["err"])
             else:
-                tr.ev("Exec", key=tr.terms.it.id(key_of(r["op"], r["fwver"])), out=tr.terms.it.id(normalise(r["op"], r["outs"], keys, tr.terms)),
+                tr.ev("Exec", key=tr.terms.it.id(key_of(r["op"], r["fwver"], r.get("cwd", 1))), out=tr.terms.it.id(normalise(r["op"], r["outs"], keys, tr.terms)),
                       op=r["op"], seed=seed, sched=mine[r["s"]], pos=r["i"])
             ctx.count("evaluations")
             if r["i"] > 0:
